@@ -77,6 +77,10 @@ def t_compound_assign(c, ops, cp):
     return has(c, lambda n: n[0] == "assign" and n[1] != "=")
 
 
+def t_chained_assign(c, ops, cp):
+    return has(c, lambda n: n[0] == "assign" and cparse.strip_paren(n[3])[0] == "assign")
+
+
 def t_hybrid(c, ops, cp):
     return has(c, lambda n: n[0] in ("post", "stmtexpr") or (n[0] == "call"))
 
@@ -119,6 +123,8 @@ RULES = [
              "by && / ||, and computed once for a loop condition"),
     Rule("return-does-not-leave", "value", "KF-return-does-not-leave", t_call, doc="a return statement does not leave the sub-routine: later statements still run and the last return executed determines the value"),
     Rule("return-via-u64", "value", "KF-return-via-u64", t_call, doc="the return value is zero-extended into the unsigned 64-bit ret_val and truncated to the return type by the caller, instead of being converted to the return type"),
+    Rule("chained-assign-outer-first", "value", "KF-chained-assign-outer-first", t_chained_assign,
+         doc="x = y = E: both assignments evaluate the (shared) right operand themselves, the outer one first; wrong when E reads x"),
     Rule("compound-src-precast", "value", "KF-compound-src-precast", t_compound_assign, doc="the right operand of a compound assignment is converted to the type of the target before the operation"),
     Rule("unary-fold-unreduced", "value", "KF-unary-fold-unreduced", t_neg_or_not_literal, doc="a folded ~ or - of a constant keeps its mathematical value (not reduced to its type) when it is an operand of another fold"),
     Rule("neg-literal-signed", "value", "KF-neg-literal-signed", t_neg_literal, doc="the folded negation of a constant is typed signed (-1U becomes -1)"),
